@@ -73,6 +73,18 @@ CHECKS = {
          "Only accepted programs are judged. Four per-CPU defects are listed as open findings by (cpu, template regex); "
          "those templates are excluded from the Hypothesis part by construction and attributed in the enumeration.",
          "DESIGN.md 3/C02"),
+ "C03": ("hypothesis+nvserve",
+         "Hypothesis memory images; every writer's file decoded by independent format readers; reload through naken_util",
+         "Generated-input search: Hypothesis builds images of 1..10 disjoint segments (odd lengths, gaps to 16 MiB, bases "
+         "across the 32-bit space, 64 KiB crossings, .entry_point, .export) for 11 CPUs (bytes-per-address 1/2/4/8, both "
+         "byte orders, all three S-record widths, ELF32/64). Each of hex/srec/wdc/uf2/elf/bin written by the sanitized "
+         "writers is decoded by readers written from the format specifications and must give exactly the generated "
+         "address->byte map (record formats) or carry it with only zero padding (containers), valid checksums/lengths, "
+         "entry point and exported symbols; one format per image is also loaded with naken_util and printed back. "
+         "amiga/macho writers are run for crash freedom.",
+         "Trusted: pyprops/formats.py. UF2 blocks of the fixed RP2350-E10 family are not program bytes; WDC/S-record "
+         "terminators are optional; wdc/S2 only judged inside their 24-bit range; byte addresses >= 2^31 on bpa>1 CPUs "
+         "excluded (open finding C05-signed-byte-address).", "DESIGN.md 3/C03"),
 }
 
 NOT_YET = "check not built yet (work in progress; see DESIGN.md section 3)"
